@@ -156,6 +156,25 @@ CHECKS["C17"] = (
     "DESIGN.md §5 C17",
 )
 
+CHECKS["C15"] = (
+    "differential monitor over injective renamings + invariant monitors on the emitted declarations (independent reserved-name lists, scope clashes) + execution of the renamed program",
+    "Generated programs with identifier placeholders are rendered under a neutral and a second injective naming (fresh, or adversarial: "
+    "reserved words / built-in names of both targets, <name>_N forms, the exporters' own generated names): for fresh names the HLSL and "
+    "Metal outputs must be identical up to the renaming; no emitted declaration may carry a reserved name (oracle's own lists), no two "
+    "entities of a scope may share a name, fresh unique names must be kept verbatim, and the renamed program must still compute the same (C01/C02 oracles).",
+    "Reserved lists were written for the oracle from the language references. Seven recorded findings (members / enumerators / namespaces are never protected; one clash) are tolerated by mechanism-level signatures.",
+    "DESIGN.md §5 C15",
+)
+CHECKS["C18"] = (
+    "differential monitor across the four target configurations (front-end diagnostics, DX/VK verdicts, token-level source comparison after stripping binding annotations, reported stages/state/binding sets)",
+    "~25k generated programs (a quarter broken on purpose) plus corpus and unit-test snippets that do not mention RSSL_TARGET_* are compiled "
+    "for all four configurations: a front-end rejection must be the identical diagnostic everywhere, DirectX and Vulkan succeed or fail "
+    "together and differ only in binding/attribute annotations and buffer-address lowering, and stages, thread-group sizes, pipeline state "
+    "and the set of (binding name, kind, count) agree.",
+    "Metal is excluded for programs its backend rejects with a diagnostic. One recorded finding (per-target renaming of a reserved binding name) conflicts with C05's requirement and stays open.",
+    "DESIGN.md §5 C18",
+)
+
 NOT_YET = {}
 
 def main():
